@@ -134,10 +134,10 @@ pub(super) mod udp {
         let outbound = UdpSocket::bind(SocketAddrV4::new(Ipv4Addr::UNSPECIFIED, 0)).await?;
         let outbound_framed = UdpFramed::new(
             outbound,
-            DatagramPacketCodec::new(SessionCodec::new(
-                Context::new(Mode::Client, None, client.key, client.identity_keys),
-                AEADCipherCodec::new(client.kind),
-            )),
+            DatagramPacketCodec::new(
+                SessionCodec::new(Context::new(Mode::Client, None, client.key, client.identity_keys), AEADCipherCodec::new(client.kind)),
+                client.kind.is_aead_2022(),
+            ),
         );
         Ok(outbound_framed)
     }
@@ -160,11 +160,13 @@ pub(super) mod udp {
         codec: SessionCodec<'a, N>,
         session: Session<N>,
         filter: PacketWindowFilter,
+        // the legacy datagram format carries no packet ids
+        check_packet_id: bool,
     }
 
     impl<const N: usize> DatagramPacketCodec<'_, N> {
-        pub fn new(codec: SessionCodec<N>) -> DatagramPacketCodec<'_, N> {
-            DatagramPacketCodec { codec, session: Session::from(Mode::Client), filter: PacketWindowFilter::default() }
+        pub fn new(codec: SessionCodec<N>, check_packet_id: bool) -> DatagramPacketCodec<'_, N> {
+            DatagramPacketCodec { codec, session: Session::from(Mode::Client), filter: PacketWindowFilter::default(), check_packet_id }
         }
     }
 
@@ -188,7 +190,7 @@ pub(super) mod udp {
             } else {
                 match self.codec.decode(src)? {
                     Some((content, addr, session)) => {
-                        if !self.filter.validate_packet_id(session.packet_id, u64::MAX) {
+                        if self.check_packet_id && !self.filter.validate_packet_id(session.packet_id, u64::MAX) {
                             bail!("[udp] packet_id out of window; session={}", session)
                         }
                         self.session.server_session_id = session.server_session_id;
